@@ -23,6 +23,8 @@ Inductive cop :=
 | OClDropRx (q : N)
 | OClDropHandle (ch : N)
 | OPeekOut                            (* observe the whole out-buffer *)
+| OSetHigh (h : N)                    (* buffered_writes_high_water for the events that follow *)
+| ONeed                               (* observe channels_need_repoll *)
 | OTeardown.
 
 Inductive recv_res := RItem (it : qitem) | REmpty | RDisc.
@@ -157,6 +159,8 @@ Definition step (w : world) (o : cop) : cobs * world :=
             (BUnit, {| w_core := c2; w_handles := aremove ch (w_handles w); w_torn := w_torn w |})
         end
   | OPeekOut => (BBytes (ob (c_out c)), w)
+  | OSetHigh h => (BUnit, upd (set_high c h))
+  | ONeed => (BSent (c_need c), w)
   | OTeardown => (BUnit, {| w_core := teardown c; w_handles := w_handles w; w_torn := true |})
   end.
 
